@@ -33,6 +33,7 @@ DXNODE = [('fake_rec_len', 4, 2), ('limit', 8, 2), ('count', 10, 2), ('block0', 
 JSB = [('magic', 0, 4), ('blocktype', 4, 4), ('blocksize', 12, 4), ('maxlen', 16, 4), ('first', 20, 4), ('sequence', 24, 4), ('start', 28, 4), ('errno', 32, 4),
        ('feature_compat', 36, 4), ('feature_incompat', 40, 4), ('nr_users', 64, 4), ('csum_type', 0x50, 1), ('checksum', 0xfc, 4)]
 
+POINTER_FIELDS = {'file_acl', 'iblock0', 'iblock1', 'iblock2', 'iblock3', 'iblock5', 'iblock12', 'iblock13', 'iblock14', 'start_lo', 'leaf_lo', 'block_bitmap', 'inode_bitmap', 'inode_table'}
 CLASSES = ['sb', 'gd', 'bbitmap', 'ibitmap', 'inode', 'extent', 'ind', 'dirent', 'dx', 'xattr', 'special', 'jsb', 'bytes', 'blockop']
 KINDS = ['zero', 'ones', 'inc', 'dec', 'bitflip', 'random', 'swap', 'other_block', 'meta_block', 'out_of_range', 'small']
 SUMMARY_CLASSES = ['bbitmap', 'ibitmap', 'gd_counts', 'gd_flags', 'csum_field']
@@ -205,6 +206,9 @@ def _field(img, base, fields, field, kind, val, sibling_base=None):
     name, off, size = fields[field % len(fields)]
     old = int.from_bytes(img.rd(base + off, size), 'little')
     other = int.from_bytes(img.rd(sibling_base + off, size), 'little') if sibling_base is not None else None
+    if name in POINTER_FIELDS and size >= 4 and val % 2 == 0:
+        # block-number fields: half of the draws use pointer-specific values (first invalid block number, another file's block, fixed metadata) whatever kind was drawn
+        kind = KINDS.index(['out_of_range', 'other_block', 'meta_block', 'out_of_range'][(val // 2) % 4]); val = val // 8
     new = _mutate_value(old, size, kind, val, img, other)
     img.wr(base + off, new.to_bytes(size, 'little'))
     return name, old, new
